@@ -54,12 +54,30 @@ class Atom:
             return any(isinstance(a, Num) and a.depends_on(atom) for a in self.args)
         if self.kind == "poly":
             return self.payload.depends_on(atom)
+        if self.kind == "z3" and atom.kind == "sym":
+            # an opaque solver term (If of a condition, a quotient, ...) depends on a symbol when the symbol occurs in it
+            return atom.name in _z3_symbol_names(self.payload)
         return False
 
     def subst(self, mapping):
         """mapping: Atom -> Num.  Returns a Num."""
         if self in mapping:
             return mapping[self]
+        if self.kind == "z3":
+            names = _z3_symbol_names(self.payload)
+            pairs = []
+            for a, num in mapping.items():
+                if a.kind == "sym" and a.name in names:
+                    src = z3.Int(a.name) if a.sort == "Int" else z3.Real(a.name)
+                    dst = to_z3(num)
+                    if z3.is_int(src) and not z3.is_int(dst):
+                        raise ValueError("substitution of a real term for an integer symbol inside a solver term")
+                    if not z3.is_int(src) and z3.is_int(dst):
+                        dst = z3.ToReal(dst)
+                    pairs.append((src, dst))
+            if pairs:
+                return z3atom(z3.substitute(self.payload, *pairs))
+            return Num.of_atom(self)
         if self.kind == "app":
             new_args = [a.subst(mapping) if isinstance(a, Num) else a for a in self.args]
             return app(self.name, *new_args, sort=self.sort)
@@ -73,6 +91,21 @@ _REGISTRY = {"facts": []}
 
 def sym(name, sort="Real"):
     return Num.of_atom(Atom("sym", name, sort=sort))
+
+
+def _z3_symbol_names(expr):
+    """names of the uninterpreted constants occurring in a solver term"""
+    out, seen, stack = set(), set(), [expr]  # (no cache: solver AST ids are reused after garbage collection)
+    while stack:
+        e = stack.pop()
+        if e.get_id() in seen:
+            continue
+        seen.add(e.get_id())
+        if z3.is_app(e):
+            if e.num_args() == 0 and e.decl().kind() == z3.Z3_OP_UNINTERPRETED:
+                out.add(e.decl().name())
+            stack.extend(e.children())
+    return out
 
 
 def z3atom(expr):
